@@ -6,8 +6,10 @@ mod histprops;
 mod inv;
 mod c01;
 mod c02;
+mod c06;
 mod c08;
 mod c12;
+mod c14;
 mod inputs;
 mod loader;
 mod engine;
@@ -38,6 +40,28 @@ fn main() {
     if id == "CHILD-DEEP-OPS" {
         let d: usize = args[2].parse().unwrap();
         std::process::exit(c12::child_deep_ops(d));
+    }
+    if id == "FIND-INDEX" {
+        let si = spec::SpecIndex::get();
+        let vi = spec::NVER - 1;
+        let mut n = 0;
+        for (t, ti) in si.types.iter().enumerate() {
+            if si.depth[vi][t] == u16::MAX { continue; }
+            for s in &ti.subs {
+                if s.mask & (1 << vi) == 0 { continue; }
+                let has_index = si.types[s.tid].subs.iter().any(|x| x.name == autosar_data_specification::ElementName::Index && x.mask & (1 << vi) != 0);
+                if has_index {
+                    if let Some((_, idx)) = ti.etype.find_sub_element(s.name, 1 << vi) {
+                        let m = ti.etype.get_sub_element_multiplicity(&idx);
+                        let path: Vec<String> = si.witness_path(vi, t).unwrap_or_default().iter().map(|(_, n)| n.to_string()).collect();
+                        println!("{} / {} mult {:?} ordered {} named {} depth {}", path.join("/"), s.name, m, ti.etype.is_ordered(), s.etype.is_named(), path.len());
+                        n += 1;
+                    }
+                }
+            }
+        }
+        println!("{n}");
+        return;
     }
     if id == "GRAMMAR" {
         // verif grammar <ELEMENT-NAME> <version index>: print the grammar of every type with that name
@@ -104,6 +128,8 @@ fn main() {
                         "C10" => histprops::replay(&ctx, histprops::Prop::C10, &case),
                         "C11" => histprops::replay(&ctx, histprops::Prop::C11, &case),
                         "C12" => c12::replay(&ctx, &case),
+                        "C06" => c06::replay(&ctx, &case),
+                        "C14" => c14::replay(&ctx, &case),
                         "C18" => c18::replay(&ctx, &case),
                         "C19" => c19::replay(&ctx, &case),
                         _ => usage(),
@@ -120,6 +146,8 @@ fn main() {
                         "C10" => histprops::run(&ctx, histprops::Prop::C10),
                         "C11" => histprops::run(&ctx, histprops::Prop::C11),
                         "C12" => c12::run(&ctx),
+                        "C06" => c06::run(&ctx),
+                        "C14" => c14::run(&ctx),
                         "C18" => c18::run(&ctx),
                         "C19" => c19::run(&ctx),
                         _ => usage(),
